@@ -34,11 +34,36 @@ def _same_quant(b, dst, src):
     b.t(dst).scales, b.t(dst).zps = list(b.t(src).scales), list(b.t(src).zps)
 
 
+def make_builder(rng, name, dtype):
+    """netgen.B with zero points that are mostly inside the range: a zero point at the end of the range combined
+    with a RELU makes a tensor constant, and a constant tensor hides most differences."""
+    import netgen
+
+    class B2(netgen.B):
+        def fm(self, shape, dtype=None, scale=None, zp=None, name=None):
+            dt = dtype or self.dtype
+            if zp is None and dt in ("int8", "uint8"):
+                lo, hi = netgen._qrange(dt)
+                r = self.rng.random()
+                zp = (lo + hi + 1) // 2 if r < 0.25 else (self.rng.choice([lo, hi]) if r < 0.33 else self.rng.randint(lo + 20, hi - 20))
+            return super().fm(shape, dtype, scale, zp, name)
+
+    return B2(rng, name, dtype)
+
+
+def pick_padding(rng, k, s):
+    """SAME padding with a vertical stride >= kernel height is the trigger of the cascade rolling-buffer finding
+    (C03 / C01 key cascade-rolling-buffer-stale-row): reproduced by the corpus, rare in the random part"""
+    if 1 < k[0] <= s[0] and rng.random() < 0.95:
+        return "VALID"
+    return rng.choice(["SAME", "VALID"])
+
+
 def gen_net(rng, idx, profile):
     import netgen
 
     dtype = rng.choice(["int8"] * 6 + ["uint8"] * 3 + ["int16"] * 1)
-    b = netgen.B(rng, f"c01_{profile}_{idx}", dtype)
+    b = make_builder(rng, f"c01_{profile}_{idx}", dtype)
     if profile == "cascade":
         h, w, c = rng.choice([10, 12, 16, 20, 24]), rng.choice([4, 6, 8]), rng.choice([4, 8, 16])
     elif profile == "weights":
@@ -79,7 +104,7 @@ def gen_net(rng, idx, profile):
             s = rng.choice([(1, 1), (1, 1), (2, 2), (3, 3), (1, 2), (2, 1)])
             d = rng.choice([(1, 1), (1, 1), (1, 1), (2, 2)]) if s == (1, 1) else (1, 1)
             oc = rng.choice([1, 3, 4, 8, 16, 17]) if profile != "weights" else rng.choice([32, 48, 64])
-            new = b.conv(cur, oc, k, s, d, rng.choice(["SAME", "VALID"]), act=rng.choice([0, 0, 1, 3, 2]))
+            new = b.conv(cur, oc, k, s, d, pick_padding(rng, k, s), act=rng.choice([0, 0, 1, 3, 2]))
         elif kind == "conv_cpu":      # stride 4 is outside what the NPU supports: stays on the CPU
             new = b.conv(cur, rng.choice([4, 8]), (1, 1), (4, 4), (1, 1), "SAME", act=0)
         elif kind == "conv1x1":
@@ -87,11 +112,11 @@ def gen_net(rng, idx, profile):
         elif kind == "dwconv":
             k = rng.choice([(3, 3), (3, 3), (5, 5), (2, 2), (1, 1), (1, 3)])
             s = rng.choice([(1, 1), (1, 1), (2, 2), (3, 3)])
-            new = b.dwconv(cur, k, s, (1, 1), rng.choice(["SAME", "VALID"]), act=rng.choice([0, 1, 3]))
+            new = b.dwconv(cur, k, s, (1, 1), pick_padding(rng, k, s), act=rng.choice([0, 1, 3]))
         elif kind in ("maxpool", "avgpool_valid", "avgpool_same"):
             k = rng.choice([(2, 2), (3, 3), (2, 2), (1, 1), (4, 4), (2, 3)])
             s = rng.choice([(1, 1), (2, 2), (2, 2), (3, 3)])
-            pad = "SAME" if kind == "avgpool_same" else ("VALID" if kind == "avgpool_valid" else rng.choice(["SAME", "VALID"]))
+            pad = "SAME" if kind == "avgpool_same" else ("VALID" if kind == "avgpool_valid" else pick_padding(rng, k, s))
             new = b.pool(cur, "MAX_POOL_2D" if kind == "maxpool" else "AVERAGE_POOL_2D", k, s, pad, act=rng.choice([0, 0, 1]))
         elif kind == "add_self":
             new = b.binary(rng.choice(["ADD", "SUB", "MUL"]), cur, cur)
@@ -179,8 +204,9 @@ def corpus_net(rng, name):
     """hand-built reproducers of the known findings (run first on every run)"""
     import netgen
 
-    b = netgen.B(rng, name, "int8")
-    x = b.input({"known_pad_conv_reshape": [1, 4, 9, 4], "known_lut_reshape": [1, 3, 9, 8]}.get(name, [1, 6, 6, 8]), scale=0.05, zp=3)
+    b = make_builder(rng, name, "int8")
+    x = b.input({"known_pad_conv_reshape": [1, 4, 9, 4], "known_lut_reshape": [1, 3, 9, 8],
+                 "known_cascade_stale_row": [1, 10, 8, 8]}.get(name, [1, 6, 6, 8]), scale=0.05, zp=3)
     if name == "known_slice_relu":
         y = b.pool(x, "MAX_POOL_2D", (3, 3), (1, 1), "SAME")
         s = b.strided_slice(y, [0, 1, 2, 0], [1, 5, 6, 8])
@@ -199,6 +225,11 @@ def corpus_net(rng, name):
     elif name == "known_lut_reshape":
         y = b.unary("LEAKY_RELU", b.conv(x, 8, (1, 1), (1, 1), (1, 1), "SAME", act=1))
         z = b.fc(b.reshape(y, [1, int(np.prod(b.t(y).shape))]), 4)
+    elif name == "known_cascade_stale_row":
+        y = b.conv(x, 8, (3, 3), (1, 1), (1, 1), "SAME", act=0, out_scale=0.08)
+        b.t(y).zps = [-5]
+        z = b.conv(y, 8, (3, 3), (3, 3), (1, 1), "SAME", act=0, out_scale=0.1)
+        b.t(z).zps = [7]
     elif name == "known_reshape_relu":
         z = b.unary("RELU6", b.reshape(x, [1, 4, 9, 8]))
     else:  # known_quantize_relu
@@ -234,6 +265,8 @@ def _worker(job):
         if profile.startswith("known_"):
             net = corpus_net(rng, profile)
             opts = ["--accelerator-config", "ethos-u55-128"]
+            if profile == "known_cascade_stale_row":
+                opts += ["--optimise", "Size"]
             if profile == "known_pad_conv_reshape":
                 # with weights in SRAM no weight buffering is proposed and the compilation goes through
                 opts += ["--config", os.path.join(common.REPO, "ethosu", "config_files", "Arm", "vela.ini"), "--system-config",
@@ -257,6 +290,14 @@ def _worker(job):
                 nops += len(art.npu_ops)
             out["features"] = sorted(feats)
             out["npu_stream_ops"] = nops
+            if "cascade" in feats:
+                # kept for attribution only: a C01 failure inside a cascade is cross-checked with the C03 tagged-memory checker
+                try:
+                    ext, _m = pipeline.extents_from_output(res.out_model)
+                    out["stream_lines"] = [pipeline.stream_line(a, ext) for a in res.streams]
+                    out["op_meta"] = [pipeline.op_meta(a) for a in res.streams]
+                except Exception:
+                    pass
             try:
                 sets = c01_lib.make_inputs(rng, data, k_inputs)
                 line, sg, og = c01_lib.build_request(data, res, sets)
@@ -341,6 +382,23 @@ def classify_failure(o, ans):
     return None
 
 
+def classify_by_stream(o):
+    """A value mismatch inside a cascade: ask the Lean tagged-memory checker (C03) whether an operation of this
+    very stream reads a stale rolling-buffer row, and map its known finding to the C01 key."""
+    import stream_checks
+
+    lines = o.get("stream_lines") or []
+    if not lines:
+        return None
+    for ans, metas in zip(common.run_model(lines), o.get("op_meta") or []):
+        a = stream_checks.parse_answer(ans)
+        if a.get("tagged"):
+            k = stream_checks.classify_tagged(a["tagged_msgs"][0], metas)
+            if k is not None:
+                return k
+    return None
+
+
 def replay(ck, path):
     rp = json.load(open(path))["replay"]
     ans = common.run_model([rp["request"]])[0]
@@ -359,7 +417,7 @@ def main():
     n = 1200 if ck.thorough else 140
     k_inputs = 5 if ck.thorough else 4
     jobs = [(0, 0, "known_" + nm, k_inputs) for nm in ("slice_relu", "fused_act_relu", "pad_conv_reshape", "quantize_relu", "reshape_relu",
-                                                              "slice_window", "lut_reshape")]
+                                                              "slice_window", "lut_reshape", "cascade_stale_row")]
     jobs += [(ck.seed, i, PROFILES[i % len(PROFILES)], k_inputs) for i in range(n)]
     ctx = multiprocessing.get_context("fork")
     with ProcessPoolExecutor(min(16, os.cpu_count() or 4), mp_context=ctx) as ex:
@@ -413,7 +471,7 @@ def main():
         if nblocks > 0 and any(c != "2" for c in classes):
             nontrivial.add((o["profile"], o["idx"], tuple(o["opts"])))
         if ans.endswith("verdict=fail"):
-            key = classify_failure(o, ans)
+            key = classify_failure(o, ans) or classify_by_stream(o)
             ck.violation(f"compiled model differs from the source model: {ans[:400]} "
                          f"(network {o['idx']} {o['profile']} {o['src_ops']} {o['opts']})", rp, key=key)
     for o, ans in list(zip(owners, answers))[:4]:
